@@ -358,6 +358,11 @@ type allowerContext struct {
 	joinRule           JoinRuleContent   // The m.room.join_rules content for the room.
 
 	roomID spec.RoomID
+
+	// The error, if any, with which the provider answered one of the lookups
+	// of the last update. Nothing is allowed on the strength of auth events
+	// that could not be loaded.
+	loadErr error
 }
 
 func newAllowerContext(provider AuthEventProvider, userIDQuerier spec.UserIDForSender, roomID spec.RoomID) *allowerContext {
@@ -398,7 +403,14 @@ func (a *allowerContext) update(provider AuthEventProvider) {
 		a.provider = provider
 		a.createEvent, a.powerLevelsEvent, a.joinRuleEvent = nil, nil, nil
 	}
-	if e, _ := provider.Create(); a.createEvent == nil || a.createEvent != e {
+	a.loadErr = nil
+	noteLoadError := func(err error) {
+		if err != nil && a.loadErr == nil {
+			a.loadErr = err
+		}
+	}
+	if e, err := provider.Create(); a.createEvent == nil || a.createEvent != e || err != nil {
+		noteLoadError(err)
 		if c, err := NewCreateContentFromAuthEvents(provider, a.userIDQuerier); err == nil {
 			a.createEvent = e
 			a.create = c
@@ -413,7 +425,8 @@ func (a *allowerContext) update(provider AuthEventProvider) {
 			a.privilegedCreators = false
 		}
 	}
-	if e, _ := provider.PowerLevels(); a.powerLevelsEvent == nil || a.powerLevelsEvent != e {
+	if e, err := provider.PowerLevels(); a.powerLevelsEvent == nil || a.powerLevelsEvent != e || err != nil {
+		noteLoadError(err)
 		creator := ""
 		if a.createEvent != nil {
 			creator = string(a.createEvent.SenderID())
@@ -428,7 +441,8 @@ func (a *allowerContext) update(provider AuthEventProvider) {
 			a.powerLevels = PowerLevelContent{}
 		}
 	}
-	if e, _ := provider.JoinRules(); a.joinRuleEvent == nil || a.joinRuleEvent != e {
+	if e, err := provider.JoinRules(); a.joinRuleEvent == nil || a.joinRuleEvent != e || err != nil {
+		noteLoadError(err)
 		if j, err := NewJoinRuleContentFromAuthEvents(provider); err == nil {
 			a.joinRuleEvent, _ = provider.JoinRules()
 			a.joinRule = j
@@ -451,6 +465,11 @@ func (a *allowerContext) allowed(event PDU) error {
 	// resolution.
 	if !a.provider.Valid() {
 		return errorf("authEvents contains events from different rooms")
+	}
+	// An error loading the auth events is returned as it is (a failed lookup
+	// is not an absent event: judging against defaults would fail open).
+	if a.loadErr != nil {
+		return a.loadErr
 	}
 	switch event.Type() {
 	case spec.MRoomCreate:
